@@ -387,7 +387,9 @@ func runProgram(p progIn) (res progOut) {
 		panic(L.CheckString(1)) // a Go panic inside a host function
 	}))
 	L.SetGlobal("snap", L.NewFunction(func(L *lua.LState) int {
-		res.Snaps = append(res.Snaps, snapRecord(L, L.OptInt(1, 0), "lua"))
+		if len(res.Snaps) < 120 { // loops: the first iterations are enough
+			res.Snaps = append(res.Snaps, snapRecord(L, L.OptInt(1, 0), "lua"))
+		}
 		return 0
 	}))
 	registerHostFunctions(L, &res, tk, ctx)
